@@ -6,6 +6,7 @@ package main
 
 import (
 	"fmt"
+	"sort"
 	"strings"
 	"sync"
 
@@ -13,6 +14,7 @@ import (
 	"github.com/safing/portbase/database"
 	"github.com/safing/portbase/database/query"
 	"github.com/safing/portbase/database/record"
+	"github.com/safing/portbase/formats/dsd"
 )
 
 var (
@@ -70,6 +72,148 @@ func cfgPush(id int64, n int) string {
 	}
 	out := fmt.Sprintf("key=config:%s exact=%s closed=%v prefix=%s closed=%v other=%s closed=%v get=%s", key, keysOf(e), eClosed, keysOf(p), pClosed, keysOf(o), oClosed, got)
 	return strings.ReplaceAll(out, fmt.Sprintf("c14/opt%d", id), "c14/optN")
+}
+
+// ---- the config StorageInterface driven through the database interface and the config API ----------------------
+
+var cfgTokens = []string{"pv", "pn", "pz", "de", "so", "sn", "pb", "sb", "rc", "px", "gt"}
+
+// cfgOps runs `cfgops <token>…` on two fresh options a and b under a prefix of their own, with subscriptions on a's
+// key, on the prefix and on another prefix; after all tokens the exact-key subscription is cancelled and `pv`, `so`
+// are done once more. Output: one item per step, `<token>=<result>:E[keys]P[keys]O[keys]` (what each feed got).
+func cfgOps(id int64, toks []string) string {
+	initDB()
+	cfgOnce.Do(func() { cfgErr = config.VerifInjectAsDatabase() })
+	if cfgErr != nil {
+		return "err other:" + cfgErr.Error()
+	}
+	pre := fmt.Sprintf("c14/%d/", id)
+	for _, k := range []string{"a", "b"} {
+		if err := config.Register(&config.Option{Name: "C14 option " + k, Key: pre + k, Description: "verification", OptType: config.OptTypeString, DefaultValue: "x"}); err != nil {
+			return "err other:" + err.Error()
+		}
+	}
+	db := database.NewInterface(&database.Options{Local: true, Internal: true})
+	exact, err1 := db.Subscribe(query.New("config:" + pre + "a"))
+	prefix, err2 := db.Subscribe(query.New("config:" + pre))
+	other, err3 := db.Subscribe(query.New("config:zz/"))
+	if err1 != nil || err2 != nil || err3 != nil {
+		return "err other:subscribe"
+	}
+	putJSON := func(key, js string) error {
+		r, err := record.NewWrapper("config:"+key, nil, dsd.JSON, []byte(js))
+		if err != nil {
+			return err
+		}
+		return db.Put(r)
+	}
+	n := 0
+	step := func(tok string) string {
+		n++
+		var err error
+		switch tok {
+		case "pv": // database put with a value
+			err = putJSON(pre+"a", fmt.Sprintf(`{"Value":"v%d"}`, n))
+		case "pn": // database put without Value: reset to default
+			err = putJSON(pre+"a", `{"Key":"ignored"}`)
+		case "pz": // database put with null Value
+			err = putJSON(pre+"a", `{"Value":null}`)
+		case "de": // database delete
+			err = db.Delete("config:" + pre + "a")
+		case "so": // config API
+			err = config.SetConfigOption(pre+"a", fmt.Sprintf("s%d", n))
+		case "sn":
+			err = config.SetConfigOption(pre+"a", nil)
+		case "pb":
+			err = putJSON(pre+"b", fmt.Sprintf(`{"Value":"w%d"}`, n))
+		case "sb":
+			err = config.SetConfigOption(pre+"b", fmt.Sprintf("t%d", n))
+		case "rc":
+			config.ReplaceConfig(map[string]interface{}{pre + "a": fmt.Sprintf("r%d", n)})
+		case "px": // unregistered option
+			err = putJSON(pre+"nope", `{"Value":"q"}`)
+		case "gt":
+			_, err = db.Get("config:" + pre + "a")
+		default:
+			return tok + "=bad-op"
+		}
+		res := "ok"
+		if err != nil {
+			res = "err"
+		}
+		e, ec := drainOne(exact.Feed)
+		p, _ := drainOne(prefix.Feed)
+		o, _ := drainOne(other.Feed)
+		x := ""
+		if ec {
+			x = "x"
+		}
+		return fmt.Sprintf("%s=%s:E%s%sP%sO%s", tok, res, keysOf(e), x, sortedKeys(p), keysOf(o))
+	}
+	var out []string
+	for _, t := range toks {
+		out = append(out, step(t))
+	}
+	_ = exact.Cancel()
+	out = append(out, "cancel", step("pv"), step("so"))
+	_ = prefix.Cancel()
+	_ = other.Cancel()
+	return strings.ReplaceAll(strings.Join(out, " "), pre, "c14/N/")
+}
+
+func sortedKeys(recs []record.Record) string {
+	ks := make([]string, 0, len(recs))
+	for _, r := range recs {
+		ks = append(ks, r.Key())
+	}
+	sort.Strings(ks)
+	return "[" + strings.Join(ks, ",") + "]"
+}
+
+// monitorCfgOps: exactly one delivery per successful write or pushed change of a matching option, to every active
+// matching subscription; nothing for failed writes, reads, other prefixes, or after cancel.
+func monitorCfgOps(line, out string) (sig, what string) {
+	toks := strings.Fields(line)[1:]
+	a, b := "config:c14/N/a", "config:c14/N/b"
+	want := func(tok string, cancelled bool) string {
+		res, e, p := "ok", "", ""
+		switch tok {
+		case "pv", "pn", "pz", "de", "so", "sn":
+			e, p = a, a
+		case "pb", "sb":
+			p = b
+		case "rc":
+			e, p = a, a+","+b
+		case "px":
+			res = "err"
+		case "gt":
+		}
+		x := ""
+		if cancelled {
+			e, x = "", "x"
+		}
+		return fmt.Sprintf("%s=%s:E[%s]%sP[%s]O[]", tok, res, e, x, p)
+	}
+	var w []string
+	for _, t := range toks {
+		w = append(w, want(t, false))
+	}
+	w = append(w, "cancel", want("pv", true), want("so", true))
+	if exp := strings.Join(w, " "); exp != out {
+		got, wantF := strings.Fields(out), strings.Fields(exp)
+		for i := range wantF {
+			if i >= len(got) || got[i] != wantF[i] {
+				g := "(nothing)"
+				if i < len(got) {
+					g = got[i]
+				}
+				tok, _, _ := strings.Cut(wantF[i], "=")
+				return "C14:config-db:" + tok, fmt.Sprintf("config as injected database, step %d: feeds show %s, the property requires %s (E = subscription on the option's key, P = on the prefix, O = other prefix)", i, g, wantF[i])
+			}
+		}
+		return "C14:config-db", fmt.Sprintf("got %q want %q", out, exp)
+	}
+	return "", ""
 }
 
 // monitorCfg: every pushed update of a matching, visible record is delivered exactly once while the subscription is
